@@ -612,7 +612,7 @@ def _solve1(pc, goal, timeout_ms, axioms, arith):
     return s, s.check()
 
 
-def discharge(res, timeout_ms=10000, want_models=True):
+def discharge(res, timeout_ms=10000, want_models=True, second_opinion=False):
     out = []
     for ob in getattr(res, '_obs', []):
         t0 = time.time()
@@ -631,6 +631,19 @@ def discharge(res, timeout_ms=10000, want_models=True):
         verdict = 'proved' if r == z3.unsat else ('refuted' if r == z3.sat else 'undecided')
         rec = dict(name=ob.name, kind=ob.kind, verdict=verdict, backend=pre or 'z3-%s' % z3.get_version_string(),
                    time=0.0, line=ob.line)
+        if verdict == 'proved' and second_opinion and s is not None:
+            # thorough tier: the proof is submitted to a second solver (cvc5 1.0.3 on the SMT-LIB text z3 prints);
+            # only a definite answer counts: unsat = confirmed, sat = the two solvers disagree (undecided, exit 2)
+            try:
+                r2 = cvc5_check(s.to_smt2(), 15000)
+            except Exception as e:
+                r2 = 'error: %r' % (e,)
+            rec['second_opinion'] = r2
+            if r2 == 'unsat':
+                rec['backend'] += '+cvc5-1.0.3'
+            elif r2 == 'sat':
+                verdict = rec['verdict'] = 'undecided'
+                rec['reason'] = 'solver disagreement: z3 unsat, cvc5 sat'
         if verdict == 'refuted' and want_models:
             try:
                 rec['model'] = model_dict(s.model())
@@ -660,8 +673,8 @@ def discharge(res, timeout_ms=10000, want_models=True):
     return res
 
 
-def check(c, registry=None, timeout_ms=10000):
+def check(c, registry=None, timeout_ms=10000, second_opinion=False):
     res = collect(c, registry, timeout_ms)
     if res.error is None:
-        discharge(res, timeout_ms)
+        discharge(res, timeout_ms, second_opinion=second_opinion)
     return res
